@@ -15,6 +15,7 @@ import (
 
 	"verif/fakecass"
 	"verif/gen"
+	"verif/model"
 	"verif/mon"
 	"verif/px"
 	"verif/rawcql"
@@ -52,10 +53,15 @@ func runC03(c *Ctx) {
 	r := c.R
 	if c.Replay == nil {
 		c03Storms(c)
+		for i := 0; i < c.Pick(60, 3000); i++ {
+			if c.Mine(i) {
+				c03RetryPipelined(c, i)
+			}
+		}
 	}
 	r.Assume("statements and prepared ids are chosen so that the proxy forwards them (user keyspace, ids the backend knows); no write-consistency override is configured")
 	r.Assume("for responses the retry policy may swallow (unavailable, bootstrapping, overloaded, server error, truncate, retryable timeouts) the script answers identically on every host and the client must hold either exactly those bytes or the proxy's own 'no more hosts' error")
-	r.Require("requests_compared", "responses_compared")
+	r.Require("requests_compared", "responses_compared", "third_attempts_after_pipelined_requests")
 	maxBody := c.Pick(256<<10, 4<<20)
 	n := c.Pick(3000, 150000)
 	bed, err := px.NewBed(px.BedConfig{Hosts: 2, NumConns: 1, Keyspaces: []string{"ks1"}, KeepBodies: true, MaxVersion: primitive.ProtocolVersionDse2})
@@ -297,4 +303,93 @@ func firstDiff(a, b []byte) int {
 		}
 	}
 	return n
+}
+
+// c03RetryPipelined: a request that is retried more than once while other small requests are pipelined on the same client
+// connection. Every attempt of a request that reaches a backend must carry that request's own bytes, however often it is
+// retried and whatever else the client sent in between.
+//
+//	A -> host x: retryable error; A -> host y: reply held; the client sends B1..Bn (answered at once); the held reply
+//	(a retryable error again) is released; A -> host z: must still be A.
+func c03RetryPipelined(c *Ctx, idx int) {
+	r := c.R
+	rng := c.Rng(810000 + idx)
+	hosts := 3 + rng.Intn(2)
+	comp := []string{"", "lz4", "snappy"}[rng.Intn(3)]
+	kinds := []ReqKind{KQuery, KExecute, KBatch}
+	kind := kinds[idx%3]
+	nB := 1 + rng.Intn(6)
+	retryable := []model.Outcome{model.Unavailable, model.Bootstrapping, model.Overloaded, model.ServerError, model.ReadTimeoutRetry}
+	o1, o2 := retryable[rng.Intn(len(retryable))], retryable[rng.Intn(len(retryable))]
+	if idx%5 == 4 {
+		o2 = model.Bootstrapping
+	}
+	label := "retry-pipelined"
+	scenario := map[string]interface{}{"kind": "c03-retry-pipelined", "idx": idx}
+	c.Step("c03 retry-pipelined idx=%d hosts=%d comp=%q kind=%v first=%s second=%s pipelined=%d", idx, hosts, comp, kind, o1, o2, nB)
+	bed, err := px.NewBed(px.BedConfig{Hosts: hosts, NumConns: 1, Keyspaces: []string{"ks1"}, KeepBodies: true})
+	if err != nil {
+		r.Inconc("c03 retry-pipelined: cannot start bed: " + err.Error())
+		return
+	}
+	defer bed.Close()
+	cl, err := bed.ReadyClient(primitive.ProtocolVersion4, comp)
+	if err != nil {
+		r.Inconc("c03 retry-pipelined: handshake: " + err.Error())
+		return
+	}
+	defer cl.Close()
+	if err := PrepareStandard(bed, cl, true); err != nil {
+		r.Inconc("c03 retry-pipelined: prepare: " + err.Error())
+		return
+	}
+	tokA := NewTok()
+	bed.Cluster.SetScript(func(a *fakecass.Arrival) fakecass.Outcome {
+		if a.Token != tokA {
+			return fakecass.Rows()
+		}
+		switch a.K {
+		case 1:
+			return OutcomeFor(o1, tokA, primitive.ProtocolVersion4)
+		case 2:
+			o := OutcomeFor(o2, tokA, primitive.ProtocolVersion4)
+			o.Hold = true
+			return o
+		}
+		return fakecass.Rows()
+	})
+	chA := cl.Expect(100)
+	if err := cl.SendF(BuildRequest(primitive.ProtocolVersion4, 100, kind, true, tokA, primitive.ConsistencyLevelOne)); err != nil {
+		r.Inconc("c03 retry-pipelined: send: " + err.Error())
+		return
+	}
+	if !waitFor(func() bool { return bed.Cluster.HeldCount() == 1 }, 10*time.Second) {
+		r.Inconc(fmt.Sprintf("c03 retry-pipelined: the second attempt did not arrive (first outcome %s)", o1))
+		return
+	}
+	for b := 0; b < nB; b++ {
+		kb := kinds[rng.Intn(3)]
+		if f, err := cl.CallF(BuildRequest(primitive.ProtocolVersion4, int16(200+b), kb, rng.Intn(2) == 0, NewTok(), primitive.ConsistencyLevelOne), 10*time.Second); err != nil || f == nil {
+			r.Inconc("c03 retry-pipelined: a pipelined request was not answered")
+			return
+		}
+	}
+	bed.Cluster.ReleaseHeld(nil)
+	fA, err := cl.Wait(chA, 10*time.Second)
+	evs := bed.Log.Snapshot()
+	n := transparencyCheck(r, evs, label, scenario)
+	r.Eval(n)
+	r.Obs("requests_compared", n)
+	arrivalsA := bed.Cluster.Arrivals(tokA)
+	if err != nil || fA == nil {
+		// the request was answered by nobody: judged by C01; here only the bytes matter
+		r.Obs("retry_pipelined_unanswered", 1)
+	} else if ri := DecodeReply(comp, fA); ri.Kind == "Rows" && ri.Tok != tokA {
+		r.Violate(mon.Violation{Signature: fmt.Sprintf("C03/request-altered/%s/%s/answered-with-another-requests-result", label, opName(int(fA.OpCode))),
+			Detail: fmt.Sprintf("request %s was answered with the rows of %s", tokA, ri.Tok), Scenario: scenario})
+	}
+	if arrivalsA >= 3 {
+		r.Obs("third_attempts_after_pipelined_requests", 1)
+		r.NonTrivial(fmt.Sprintf("retry-pipelined/%v/%s/%s,%s/n%d", kind, comp, o1, o2, nB))
+	}
 }
